@@ -65,7 +65,10 @@ def gen_script(rng, kind, k):
     for j in range(n):
         r = rng.random()
         if r < 0.4:
-            lines.append("echo MARK%d_%d %s" % (k, j, rng.choice(["a", "b c", '"q r"', "${x}", ""])))
+            # arguments with the documented escapes, quoted and not (seed C20-w7-m2: the -e text was pre-processed, an unquoted \n
+            # became a line break before the library saw the script)
+            lines.append("echo MARK%d_%d %s" % (k, j, rng.choice(["a", "b c", '"q r"', "${x}", "", "one\\ntwo", '"q\\nr"', "a\\\\b", "t\\tu",
+                                                                   '"say \\"hi\\""', "x\\n", "\\necho MARK_inner"])))
         elif r < 0.6:
             lines.append("x = set v%d" % j)
         elif r < 0.7:
